@@ -4,7 +4,7 @@
    A history is a list of calls (ProcessDescriptor / Close by pool index, Open); `run` yields one
    observation per call: closed ids, error, ids of Open() after the call; None = the call panicked. *)
 From Gots Require Import Base.Prelude Model.SegDesc Model.State
-  Proofs.SegProofs Proofs.StateBasics Proofs.StateRun Proofs.StateDup Proofs.StateInv.
+  Proofs.SegProofs Proofs.StateBasics Proofs.StateRun Proofs.StateDup Proofs.StateInv Proofs.StateWrites.
 Import SegDesc State.
 Local Open Scope nat_scope.
 
@@ -184,6 +184,21 @@ Theorem C10_no_reopen_unconditional_refuted : ~ C10_no_reopen_unconditional_full
 Proof. exact no_reopen_full_refuted. Qed.
 Print Assumptions C10_no_reopen_unconditional_refuted.
 
+(* The hypothesis `writes g <= 10` follows from a condition on the INPUT history alone: at most 10
+   distinct signal times among the descriptors (with a PTS) handed to ProcessDescriptor.
+   distinct_pts pool cs := number of distinct ptsv among those descriptors. *)
+Theorem C10_writes_le_distinct_pts : forall pool cs sg, Forall (call_in_pool pool) cs ->
+  gexec pool (NewState, g0) cs = Ok sg -> distinct_pts pool cs <= 10 -> writes (snd sg) <= distinct_pts pool cs.
+Proof. exact writes_le_distinct_pts. Qed.
+Print Assumptions C10_writes_le_distinct_pts.
+
+(* the no-duplicate / not-reopened clause for every history with at most 10 distinct signal times *)
+Theorem C10_open_consistent_pts : forall pool cs, Forall (call_in_pool pool) cs -> distinct_pts pool cs <= 10 ->
+  exists s g, gexec pool (NewState, g0) cs = Ok (s, g) /\ exec pool NewState cs = Ok s /\
+    writes g <= 10 /\ NoDup (opened g) /\ NoDup (open s) /\ (forall x, In x (open s) -> ~ In x (gone g)).
+Proof. exact open_consistent_pts. Qed.
+Print Assumptions C10_open_consistent_pts.
+
 (* non-vacuity: a history with a breakaway, a descriptor closing through it, a resumption, an explicit
    close and a duplicate satisfies the hypotheses (indices in the pool, writes <= 10) and shows every
    kind of observation *)
@@ -195,9 +210,9 @@ Example C10_nonvacuous :
                 mk 4 0x31 2 true 500 0 0 false 0 0 None;      (* provider ad end *)
                 mk 5 0x30 9 false 0 0 0 false 0 0 None ] in   (* no PTS *)
   let cs := [CProcess 0; CProcess 1; CProcess 2; CProcess 2; CProcess 3; CProcess 4; CClose 0; CProcess 5; COpen] in
-  Forall (call_in_pool pool) cs /\
+  Forall (call_in_pool pool) cs /\ distinct_pts pool cs = 5 /\
   map (fun o => match o with Some ob => (o_closed ob, o_err ob, o_open ob) | None => ([], 99%N, Panic) end)
       (run pool NewState cs) =
   [ ([], 0, Ok [0]); ([], 0, Ok [0; 1]); ([1], 0, Ok [0]); ([], 31, Ok [0]); ([], 0, Ok [0; 3]);
     ([], 33, Ok [0; 3]); ([0], 0, Ok [3]); ([], 29, Ok [3]); ([], 0, Ok [3]) ]%N.
-Proof. split; [repeat constructor; simpl; lia|vm_compute; reflexivity]. Qed.
+Proof. split; [repeat constructor; simpl; lia|split; vm_compute; reflexivity]. Qed.
